@@ -33,6 +33,10 @@ CHECKS = {
             "Seeded histories over a source, a destination (each store class, SimRemoteFS) and one shared ObjectDBIndex: clean and faulty closed transfers, external deletions by 'another client', status and compare_status; without index every answer must equal the actual listing (both lookup strategies of the generic class are reached by randomising LIST_OBJECT_PAGE_SIZE / TRAVERSE_PREFIX_LEN and adding 00-prefixed fillers); with index every directory reported existing must be in the store at that instant and every id the index holds must have been delivered earlier (tracked from seam events) or be listed by a directory present now.",
             "Index-free exactness for LocalHashFileDB uses intact objects only (its existence query is an integrity check, C07).",
             "deterministic simulation: seeded operation/fault histories checked against a reference model after every step", "DESIGN.md §5 C12"),
+    "C15": ("fault_enumeration",
+            "For each seeded scenario (operation family x reflink variant x tree x pre-populated destination) a golden run counts every seam point of the operation - filesystem mutations including mid-copy, state-database calls, remote puts - and then for EVERY k the operation is re-run from scratch in a forked process that dies with os._exit at point k (no finally/except clean-up runs, staged in-memory objects vanish); a second fresh process audits the durable state (no write-protected object mismatches its name; no hash-state row whose token matches the file vouches for a wrong hash; every valid directory object has its files), re-runs the operation and audits again (all objects valid and protected, object set equals the golden run's). Complete over crash points per scenario, sampled over scenarios.",
+            "Crash = process death; no power-loss model. SQLite statements are atomic (crash points fall between statements). A working reflink is modelled as create-empty + atomic clone. The generic store class over a POSIX directory is not a target (healing belongs to LocalHashFileDB); it is covered over SimRemoteFS with atomic puts.",
+            "deterministic simulation: process-death enumeration at every seam point + restart in a fresh process + audits", "DESIGN.md §5 C15"),
 }
 
 NA_FIXED = {
